@@ -230,6 +230,49 @@ func runC06(c *bx.Ctx) {
 			rec()
 		}
 	}
+	// every cut: each concatenation of up to two valid small frames truncated at every octet
+	c.Space("every-truncation-point")
+	for i := 0; i < nSmall; i++ {
+		if !alpha[i].valid {
+			continue
+		}
+		for j := -1; j < nSmall; j++ {
+			if j >= 0 && !alpha[j].valid {
+				continue
+			}
+			if !c.MineBlock(0) {
+				continue
+			}
+			dg := append([]byte{}, alpha[i].b...)
+			if j >= 0 {
+				dg = append(dg, alpha[j].b...)
+			}
+			for cut := 0; cut < len(dg); cut++ {
+				c.Add(1)
+				in := append([]byte{}, dg[:cut]...)
+				ps, err, pan := safeDgram(in)
+				c.T(1)
+				frames, serr := ref.Split(dg[:cut])
+				okRef := serr == nil
+				if okRef {
+					for _, f := range frames {
+						if !one(f).ok {
+							okRef = false
+						}
+					}
+				}
+				if pan != "" {
+					c.Report("C06/truncation/panic", "rtcp.Unmarshal panics on a truncated datagram", bx.Replay{Entry: "dgram", InputHex: bx.Hex(dg[:cut]), Expected: "error", Observed: "panic: " + pan})
+				} else if !okRef && (err == nil || ps != nil) {
+					c.Report("C06/truncation/accepted", "a datagram cut inside a frame does not yield (nil, error)", bx.Replay{Entry: "dgram", InputHex: bx.Hex(dg[:cut]), Expected: "nil, error", Observed: fmt.Sprintf("%d packets err=%v", len(ps), err)})
+				} else if okRef && (err != nil || len(ps) != len(frames)) {
+					c.Report("C06/truncation/complete-prefix-rejected", "a datagram cut exactly at a frame boundary is not decoded to the frames before the cut", bx.Replay{Entry: "dgram", InputHex: bx.Hex(dg[:cut]), Expected: fmt.Sprint(len(frames), " packets"), Observed: fmt.Sprintf("%d packets err=%v", len(ps), err)})
+				} else {
+					c.NT()
+				}
+			}
+		}
+	}
 	// sequences containing a large frame: alone, next to every element, and between / around
 	// eight representative small frames
 	c.Space("sequences-with-large-frames")
